@@ -21,6 +21,11 @@ func init() {
 			c.run("C01-R5", "GUARD-DOM: negotiated protocol is the minimum of both ends", func(c *Ctx) { c14R3(c) })
 			c.run("C01-R6", "PAIR: open files do not accumulate over the per-file loops", c01R6)
 			c.run("C01-R7", "SIBLING: paired steps run under the same range of negotiated versions", c01R7)
+			c.run("C01-R9", "MUST-PASS: every name produced by the name step is in the list reported to the user", c01R9)
+			c.run("C01-R10", "SIBLING: v1/v2 name payload and its decoding agree on directory mode", c01R10)
+			c.run("C01-R11", "SIBLING: number of per-file rounds = announced number on both ends", c01R11)
+			c.run("C01-R12", "SIBLING: length-prefixed frames are produced and parsed exactly on the binary-mode edge", c01R12)
+			c.run("C01-R13", "MUST-PASS: the receive stage forwards every non-empty chunk faithfully and stops on the empty one", c01R13)
 			c.run("C01-R8", "SIBLING: directory / archive / plain-file dispatch has the same polarity on both ends", c01R8)
 			c.run("C01-S4", "shared with C15-R3: archive reader/writer close the previous entry's file", c15R3)
 			c.run("C01-S5", "shared with C04-R4/R6: everything written to the connection is a protocol line with the negotiated newline, or framed/escaped payload whose announced length is its real length", func(c *Ctx) { c04R4(c); c04FrameLen(c) })
@@ -646,4 +651,350 @@ func c01R8(c *Ctx) {
 		want(cf, ci, "file-iff-not-archive", "Archive", false, "a plain file is created only for a non-archive entry", "a plain file is created for an archive stream")
 	}
 	nilFirstReturn(cf, "IsDir")
+}
+
+// c01R9: the list of names reported to the user. In both per-file loops every name produced by the
+// name step is appended to the returned list unless it is already in it, and the success return
+// returns that list.
+func c01R9(c *Ctx) {
+	for _, side := range []struct {
+		fn    string
+		names []string
+	}{
+		{"trzszTransfer.sendFiles", []string{tT + "sendFileNameV3", tT + "sendFileName"}},
+		{"trzszTransfer.recvFiles", []string{tT + "recvFileNameV3", tT + "recvFileName"}},
+	} {
+		f := c.fn(side.fn)
+		fname := c.fnName(f)
+		nameCalls := callsIn(f, idIs(side.names...))
+		if len(nameCalls) != 2 {
+			c.lost("the two name steps of " + side.fn)
+		}
+		isNameResult := func(v ssa.Value) bool {
+			call, idx := callOf(v)
+			return call != nil && idx == 1 && idIs(side.names...)(calleeID(&call.Call))
+		}
+		// appends of a name result
+		var apps []*ssa.Call
+		for _, ci := range callsIn(f, idIs("builtin append")) {
+			call := ci.(*ssa.Call)
+			els, ok := sliceElems(call.Call.Args[1])
+			if !ok || len(els) != 1 || els[0].Spread {
+				continue
+			}
+			all := true
+			for _, l := range origins(els[0].V, originOpts{}) {
+				if !isNameResult(l.V) {
+					all = false
+				}
+			}
+			if all {
+				apps = append(apps, call)
+			}
+		}
+		if len(apps) != 1 {
+			c.bad(fname+"/names-append", c.pos(f.Pos()), fmt.Sprintf("expected one append of the step's name to the reported list, found %d", len(apps)))
+			continue
+		}
+		app := apps[0]
+		// the success return gives the list that append feeds
+		okRet, nRet := true, 0
+		eachInstr(f, func(in ssa.Instruction) {
+			r, ok := in.(*ssa.Return)
+			if !ok || !isNilErrReturn(in) {
+				return
+			}
+			nRet++
+			feeds := false
+			for _, l := range origins(retVal(r, 0), originOpts{}) {
+				if l.V == ssa.Value(app) {
+					feeds = true
+				}
+			}
+			if !feeds {
+				okRet = false
+			}
+		})
+		c.check(okRet && nRet > 0, fname+"/names-returned", c.ipos(app), "the success return gives the list the names are appended to", "the list returned on success is not the list the names are appended to")
+		// every name reaches the append unless it is already listed
+		inList := func(from, to *ssa.BasicBlock) bool {
+			for _, fc := range edgeFactsTo(from, to) {
+				if call, _ := callOf(fc.V); call != nil && calleeID(&call.Call) == "trzsz.containsString" && fc.Pol {
+					return true
+				}
+			}
+			return false
+		}
+		for _, nc := range nameCalls {
+			next := func(in ssa.Instruction) bool {
+				if isNilErrReturn(in) {
+					return true
+				}
+				ci, ok := in.(ssa.CallInstruction)
+				return ok && idIs(side.names...)(calleeID(ci.Common()))
+			}
+			hit, path := reachFromE(nc.Block(), instrIndex(nc.(ssa.Instruction))+1, next, func(in ssa.Instruction) bool { return in == ssa.Instruction(app) }, inList)
+			c.check(hit == nil, fname+"/every-name-listed@"+shortID(calleeID(nc.Common())), c.ipos(nc), "each name reaches the append (or is already in the list) before the next file or the success return", "a name can be left out of the reported list", c.pathStr(path)...)
+		}
+	}
+}
+
+func shortID(id string) string {
+	if i := strings.LastIndex(id, "."); i >= 0 {
+		return id[i+1:]
+	}
+	return id
+}
+
+// c01R10: the v1/v2 name step. The sender sends the JSON description exactly when directory mode was
+// negotiated and the bare file name otherwise; the receiver decodes JSON exactly in directory mode and
+// otherwise uses the received text as the name.
+func c01R10(c *Ctx) {
+	sf := c.fn("trzszTransfer.sendFileName")
+	names := callsWithConstArg(sf, tT+"sendString", 1, "NAME")
+	if len(names) != 1 {
+		c.lost("sendString(\"NAME\") in sendFileName")
+	}
+	good, n := true, 0
+	for _, l := range origins(names[0].Call.Args[2], originOpts{}) {
+		n++
+		call, idx := callOf(l.V)
+		dir, known := false, false
+		for _, f := range l.facts() {
+			if isFieldLoad("Directory")(f.V) {
+				dir, known = f.Pol, true
+			}
+		}
+		switch {
+		case call != nil && idx == 0 && calleeID(&call.Call) == "(*trzsz.sourceFile).marshalSourceFile":
+			good = good && known && dir
+		case call != nil && calleeID(&call.Call) == "(*trzsz.sourceFile).getFileName":
+			good = good && known && !dir
+		default:
+			good = false
+		}
+	}
+	c.check(good && n == 2, "sendFileName/payload-by-mode", c.ipos(names[0]), "NAME carries the JSON description in directory mode and the bare name otherwise", "the NAME payload is not (JSON in directory mode | bare file name otherwise)")
+	rf := c.fn("trzszTransfer.recvFileName")
+	rn := callsWithConstArg(rf, tT+"recvString", 1, "NAME")
+	if len(rn) != 1 {
+		c.lost("recvString(\"NAME\") in recvFileName")
+	}
+	recvd := extractOf(rn[0], 0)
+	for _, ci := range callsIn(rf, idIs("trzsz.unmarshalSourceFile")) {
+		v, known := boolFieldFactAt(ci.Block(), "Directory")
+		c.check(known && v && sameValue(ci.Common().Args[0], recvd), "recvFileName/json-iff-directory", c.ipos(ci), "the received NAME is decoded as JSON exactly in directory mode", "the received NAME is decoded as JSON outside directory mode (or something else is decoded)")
+	}
+	for _, ci := range callsIn(rf, idIs(tT+"createFile")) {
+		v, known := boolFieldFactAt(ci.Block(), "Directory")
+		c.check(known && !v && sameValue(ci.Common().Args[2], recvd), "recvFileName/plain-iff-not-directory", c.ipos(ci), "outside directory mode the received text itself is the file name", "the plain-name path runs in directory mode (or with another name)")
+	}
+	for _, ci := range callsIn(rf, idIs(tT+"createDirOrFile")) {
+		v, known := boolFieldFactAt(ci.Block(), "Directory")
+		call, idx := callOf(ci.Common().Args[2])
+		c.check(known && v && call != nil && idx == 0 && calleeID(&call.Call) == "trzsz.unmarshalSourceFile", "recvFileName/dir-entry-from-json", c.ipos(ci), "in directory mode the entry created is the one decoded from the NAME", "directory-mode creation does not use the decoded NAME")
+	}
+}
+
+// c01R11: the number of per-file rounds. The sender announces len(list) and ranges over that same list;
+// the receiver runs a counter from 0 in steps of 1 while it is below the announced number.
+func c01R11(c *Ctx) {
+	sf := c.fn("trzszTransfer.sendFiles")
+	nums := callsIn(sf, idIs(tT+"sendFileNum"))
+	if len(nums) != 1 {
+		c.lost("sendFileNum in sendFiles")
+	}
+	lenCall, _ := callOf(nums[0].Common().Args[1])
+	var list ssa.Value
+	if lenCall != nil && calleeID(&lenCall.Call) == "builtin len" {
+		list = lenCall.Call.Args[0]
+	}
+	ranged := false
+	if list != nil {
+		for _, nc := range callsIn(sf, idIs(tT+"sendFileNameV3", tT+"sendFileName")) {
+			// the entry handed to the name step is an element of that list
+			for _, l := range origins(nc.Common().Args[1], originOpts{throughElems: true}) {
+				if sameValue(l.V, list) {
+					ranged = true
+				}
+			}
+		}
+	}
+	c.check(list != nil && ranged, "sendFiles/num=len(list ranged)", c.ipos(nums[0]), "the announced number is the length of the list whose entries are then sent", "the announced number of files is not the length of the list that is sent")
+	rf := c.fn("trzszTransfer.recvFiles")
+	rn := callsIn(rf, idIs(tT+"recvFileNum"))
+	if len(rn) != 1 {
+		c.lost("recvFileNum in recvFiles")
+	}
+	num := extractOf(rn[0].(*ssa.Call), 0)
+	good := false
+	for _, nc := range callsIn(rf, idIs(tT+"recvFileNameV3", tT+"recvFileName")) {
+		good = false
+		for _, f := range factsAt(nc.Block()) {
+			op, x, y, ok := cmpFact(f)
+			if !ok || op != token.LSS || !sameValue(y, num) {
+				continue
+			}
+			ph, isPhi := strip(x).(*ssa.Phi)
+			if !isPhi {
+				continue
+			}
+			cnt := true
+			for _, e := range ph.Edges {
+				if z, isZ := constInt(e); isZ && z == 0 {
+					continue
+				}
+				b, isB := strip(e).(*ssa.BinOp)
+				if !isB || b.Op != token.ADD || strip(b.X) != ssa.Value(ph) || !isConstIntV(1)(b.Y) {
+					cnt = false
+				}
+			}
+			good = cnt
+		}
+		if !good {
+			break
+		}
+	}
+	c.check(good, "recvFiles/rounds=announced", c.ipos(rn[0]), "the receiver runs one round per announced file (counter from 0, +1 per round, while below the number)", "the number of rounds the receiver runs is not tied to the announced number of files")
+}
+
+// c01R12: framing by mode. A length-prefixed (escaped) DATA frame is produced exactly on the binary edge and
+// parsed exactly on the binary edge; the base64 line form on the other edge, on all four data paths.
+func c01R12(c *Ctx) {
+	type site struct {
+		fn, id string
+		binary bool
+	}
+	for _, s := range []site{
+		{"trzszTransfer.sendData", tT + "sendBinary", false},
+		{"trzszTransfer.sendData", "trzsz.escapeData", true},
+		{"trzszTransfer.recvData", tT + "recvBinary", false},
+		{"trzszTransfer.recvData", "(*trzsz.trzszBuffer).readBinary", true},
+		{"trzszTransfer.recvData", "trzsz.unescapeData", true},
+		{"trzszTransfer.pipelineRecvData$1", tT + "pipelineRecvBinaryData", true},
+		{"trzszTransfer.pipelineRecvData$1", tT + "pipelineRecvBase64Data", false},
+		{"sendDataWriter.deliver", "strconv.Itoa", true},
+		{"trzszTransfer.sendDataV2", "fmt.Sprintf", true},
+	} {
+		f := c.fn(s.fn)
+		calls := callsIn(f, idIs(s.id))
+		if len(calls) == 0 {
+			c.bad(c.fnName(f)+"/"+shortID(s.id)+"@binary="+fmt.Sprint(s.binary), c.pos(f.Pos()), "the call "+s.id+" this rule was confirmed on is gone")
+			continue
+		}
+		for _, ci := range calls {
+			v, known := boolFieldFactAt(ci.Block(), "Binary")
+			c.check(known && v == s.binary, c.fnName(f)+"/"+shortID(s.id)+"@binary="+fmt.Sprint(s.binary), c.ipos(ci), "this framing step runs on the binary="+fmt.Sprint(s.binary)+" edge", "this framing step runs on the wrong edge of the binary-mode test: the peer frames/parses the other form")
+		}
+	}
+}
+
+// selectOtherArmEdge: from ends in `if selectIndex == k`, and to is the edge on which a different arm was chosen
+// than the (send) arm k at state index `arm` of select sel.
+func selectOtherArmEdge(sel *ssa.Select, arm int) func(from, to *ssa.BasicBlock) bool {
+	return func(from, to *ssa.BasicBlock) bool {
+		for _, f := range edgeFactsTo(from, to) {
+			op, x, y, ok := cmpFact(f)
+			if !ok || op != token.NEQ {
+				continue
+			}
+			if e, isE := x.(*ssa.Extract); isE && e.Tuple == ssa.Value(sel) && e.Index == 0 && isConstIntV(int64(arm))(y) {
+				return true
+			}
+		}
+		return false
+	}
+}
+
+// c01R13: the receive stage of the pipeline forwards every non-empty chunk, as the chunk itself or a full copy of
+// it, acknowledges its length, and stops on the empty chunk.
+func c01R13(c *Ctx) {
+	f := c.fn("trzszTransfer.pipelineRecvData$1")
+	recvs := callsIn(f, idIs(tT+"pipelineRecvBinaryData", tT+"pipelineRecvBase64Data"))
+	if len(recvs) != 2 {
+		c.lost("the two chunk receivers in pipelineRecvData")
+	}
+	isData := func(v ssa.Value) bool {
+		n := 0
+		for _, l := range origins(v, originOpts{}) {
+			call, idx := callOf(l.V)
+			if call == nil || idx != 0 || !idIs(tT+"pipelineRecvBinaryData", tT+"pipelineRecvBase64Data")(calleeID(&call.Call)) {
+				return false
+			}
+			n++
+		}
+		return n == 2
+	}
+	isLenData := func(v ssa.Value) bool {
+		call, _ := callOf(v)
+		return call != nil && calleeID(&call.Call) == "builtin len" && isData(call.Call.Args[0])
+	}
+	var fwd, ack *ssa.Select
+	fwdArm, ackArm := -1, -1
+	eachInstr(f, func(in ssa.Instruction) {
+		sel, ok := in.(*ssa.Select)
+		if !ok {
+			return
+		}
+		for i, st := range sel.States {
+			if st.Send == nil {
+				continue
+			}
+			switch chanName(st.Chan) {
+			case "recvDataChan":
+				fwd, fwdArm = sel, i
+			case "ackChan":
+				ack, ackArm = sel, i
+			}
+		}
+	})
+	if fwd == nil || ack == nil {
+		c.lost("the forward / ack selects of pipelineRecvData")
+	}
+	c.check(isLenData(ack.States[ackArm].Send), "pipelineRecvData/ack=len(chunk)", c.ipos(ack), "the length acknowledged is the length of the chunk just received", "the acknowledged length is not the length of the received chunk")
+	sent := fwd.States[fwdArm].Send
+	faithful := isData(sent)
+	if mk, ok := strip(sent).(*ssa.MakeSlice); ok && isLenData(mk.Len) {
+		for _, ci := range callsIn(f, idIs("builtin copy")) {
+			if ci.Common().Args[0] == ssa.Value(mk) && isData(ci.Common().Args[1]) && domI(ci.(ssa.Instruction), fwd) {
+				faithful = true
+			}
+		}
+	}
+	c.check(faithful, "pipelineRecvData/forwards-faithful-copy", c.ipos(fwd), "what is forwarded is the chunk or a full copy of it (same length, filled by copy before the send)", "what is forwarded to the decoder is not the received chunk (missing copy / wrong length)")
+	other := selectOtherArmEdge(ack, ackArm)
+	otherF := selectOtherArmEdge(fwd, fwdArm)
+	empty := func(from, to *ssa.BasicBlock) bool {
+		return factCmp(edgeFactsTo(from, to), token.EQL, isLenData, isConstIntV(0))
+	}
+	for _, rc := range recvs {
+		hit, path := reachFromE(rc.Block(), instrIndex(rc.(ssa.Instruction))+1, func(in ssa.Instruction) bool {
+			if isReturn(in) {
+				return true
+			}
+			ci, ok := in.(ssa.CallInstruction)
+			return ok && idIs(tT+"pipelineRecvBinaryData", tT+"pipelineRecvBase64Data")(calleeID(ci.Common()))
+		}, func(in ssa.Instruction) bool { return in == ssa.Instruction(fwd) || isCancelWithError(in) }, func(from, to *ssa.BasicBlock) bool {
+			return other(from, to) || otherF(from, to) || empty(from, to) || ctxErrEdge(from, to)
+		})
+		c.check(hit == nil, "pipelineRecvData/no-chunk-dropped@"+shortID(calleeID(rc.Common())), c.ipos(rc), "a non-empty chunk always reaches the forward before the next receive or the end of the stage (other exits: cancel, cancelled context, empty chunk)", "a received non-empty chunk can be skipped", c.pathStr(path)...)
+	}
+	// the binary receiver reads a payload exactly when the announced chunk size is not zero
+	bf := c.fn("trzszTransfer.pipelineRecvBinaryData")
+	for _, ci := range callsIn(bf, idIs("(*trzsz.trzszBuffer).readBinary")) {
+		sz := ci.Common().Args[1]
+		good := factCmp(factsAt(ci.Block()), token.NEQ, func(v ssa.Value) bool { return sameValue(v, sz) }, isConstIntV(0)) ||
+			factCmp(factsAt(ci.Block()), token.GTR, func(v ssa.Value) bool { return sameValue(v, sz) }, isConstIntV(0))
+		c.check(good, "pipelineRecvBinaryData/payload-iff-size-nonzero", c.ipos(ci), "a payload is read on the size != 0 edge (size 0 is the end marker)", "the payload read sits on the wrong edge of the size == 0 test")
+	}
+	// the stage ends (without cancelling) only on the empty chunk or a cancelled context
+	hit, path := reachFromE(fwd.Block(), instrIndex(fwd)+1, isReturn, func(in ssa.Instruction) bool {
+		if ci, ok := in.(ssa.CallInstruction); ok && idIs(tT+"pipelineRecvBinaryData", tT+"pipelineRecvBase64Data")(calleeID(ci.Common())) {
+			return true // the next round
+		}
+		return isCancelWithError(in)
+	}, func(from, to *ssa.BasicBlock) bool {
+		return otherF(from, to) || ctxErrEdge(from, to) || empty(from, to)
+	})
+	c.check(hit == nil, "pipelineRecvData/continues-after-forward", c.ipos(fwd), "after forwarding a chunk the stage goes on receiving", "the stage can end right after forwarding a chunk although more data is owed", c.pathStr(path)...)
 }
